@@ -9,7 +9,7 @@ META = {
             'near-tie suggestions), plus generated valid and invalid sources, decompiles and extracts of corpus binaries. N = 8 (quick) / 40 (thorough). '
             'distinct = hash(command, input); non-trivial = the run printed a diagnostic or wrote an output file',
     'assumptions': ['per-process HashMap seeding is the only source of run-to-run variation (single-threaded tool); with k >= 2 competing entries a divergence shows with probability >= 1/2 per extra run'],
-    'floors': {'inputs': 40, 'process_runs': 300, 'constructed_inputs': 8},
+    'floors': {'inputs': 40, 'process_runs': 300, 'constructed_inputs': 20},
 }
 N = {'quick': 8, 'thorough': 40}
 NINPUTS = {'quick': 200, 'thorough': 1600}
@@ -41,7 +41,29 @@ def constructed():
     C.append(('const-cycle', 'anm', 'th12', ANM_HEAD + 'const int A = B + 1; const int B = C + 1; const int C = A + 1; const int D = E; const int E = D;\nscript s { ins_3(A); ins_3(D); }\n', None))
     C.append(('msg-unused', 'msg', 'th08', 'meta { table: { 0: {script: "a"} } }\nscript a { }\nscript b { }\nscript c { }\nscript d { }\n', None))
     C.append(('debug-info', 'anm', 'th12', ANM_HEAD + 'const int K1 = 3; const int K2 = K1 * 2; const float Z = 1.5;\nscript s {\n int a = K1; float b = Z; int c = K2 + a;\n ins_3(c);\n}\nscript t {\n int q = 1; int w = 2;\n ins_3(q + w);\n}\n', None))
+    # one intrinsic given to several opcodes (on top of the built-in table): which opcode the compiler picks must not depend on iteration order
+    multi = '!anmmap\n!ins_signatures\n900 ot\n901 ot\n902 SS\n903 SS\n904 ff\n905 ff\n!ins_intrinsics\n900 Jmp()\n901 Jmp()\n902 AssignOp(op="="; type="int")\n903 AssignOp(op="="; type="int")\n904 AssignOp(op="="; type="float")\n905 AssignOp(op="="; type="float")\n'
+    C.append(('intrinsic-on-several-opcodes', 'anm', 'th12', ANM_HEAD + 'script s {\n $REG[10000] = 3;\n %REG[10004] = 1.5;\n lbl:\n $REG[10001] = $REG[10000];\n goto lbl;\n}\n', multi))
+    multi_e = multi.replace('!anmmap', '!eclmap')
+    C.append(('intrinsic-on-several-opcodes-ecl', 'ecl', 'th07', 'void sub0() {\n $REG[10000] = 3;\n %REG[10004] = 1.5;\n lbl:\n $REG[10001] = $REG[10000];\n goto lbl;\n}\nscript timeline0 {}\n', multi_e))
+    C.append(('names-on-several-opcodes', 'anm', 'th12', ANM_HEAD + 'script s {\n foo(1);\n bar(2);\n $A = 1;\n $B = 2;\n}\n',
+              '!anmmap\n!ins_names\n900 foo\n901 foo\n902 bar\n900 bar\n!ins_signatures\n900 S\n901 S\n902 S\n!gvar_names\n10000 A\n10001 A\n10002 B\n10000 B\n'))
     return C
+
+def constructed_binaries():
+    """(name, tool, game, source, mapfile used to compile, mapfile used to decompile or None): decompile inputs with >= 2 competing entries."""
+    B = []
+    sigs = '!anmmap\n!ins_signatures\n' + ''.join('%d S\n' % op for op in range(2001, 2009))
+    body = ''.join(' ins_%d(%d);\n' % (op, op) for op in (2005, 2001, 2008, 2003, 2002, 2007, 2004, 2006))
+    B.append(('decompile-unknown-opcodes', 'anm', 'th12', ANM_HEAD + 'script s {\n%s}\nscript t {\n%s}\n' % (body, body), sigs, None))
+    B.append(('decompile-unknown-opcodes-ecl', 'ecl', 'th07', 'void sub0() {\n%s}\nscript timeline0 {}\n' % body, sigs.replace('!anmmap', '!eclmap'), None))
+    B.append(('decompile-unknown-opcodes-std', 'std', 'th12', 'meta { unknown: 0, anm_path: "a.anm", objects: {}, instances: [] }\nscript main {\n%s}\n' % body, sigs.replace('!anmmap', '!stdmap'), None))
+    B.append(('decompile-unknown-opcodes-msg', 'msg', 'th12', 'meta { table: {0: {script: "s0"}} }\nscript s0 {\n%s}\n' % body.replace('ins_20', 'ins_1'), sigs.replace('!anmmap', '!msgmap').replace('\n20', '\n1'), None))
+    names = '!anmmap\n!ins_names\n2001 foo\n2001 bar\n2002 foo2\n2002 bar2\n!gvar_names\n10000 A\n10000 B\n10001 C\n10001 D\n' + sigs.split('\n', 1)[1]
+    B.append(('decompile-several-names', 'anm', 'th12', ANM_HEAD + 'script s {\n ins_2001($REG[10000]);\n ins_2002($REG[10001]);\n}\n', sigs, names))
+    wrongsigs = '!anmmap\n!ins_signatures\n' + ''.join('%d %s\n' % (op, sg) for op, sg in zip(range(2001, 2009), ['SS', 'f', 'SSS', 'z(bs=4)', 'ff', 'S', 'SS', 'fS']))
+    B.append(('decompile-wrong-signatures', 'anm', 'th12', ANM_HEAD + 'script s {\n%s}\n' % body, sigs, wrongsigs))
+    return B
 
 def run_n(ctx, argv_fn, n, outputs):
     """Run n fresh processes; returns list of observation digests (and the first observation in full)."""
@@ -105,6 +127,18 @@ def run_shard(ctx):
         argv = core.job_argv(job)
         obs, first = run_n(ctx, lambda: argv, n, ['out.bin', 'debug.json'])
         judge(ctx, name, argv, obs, first, {'text': text, 'mapfile': mapfile, 'job': job}, constructed=True)
+    ncon = len(constructed())
+    for i, (name, tool, game, text, cmap, dmap) in enumerate(constructed_binaries()):
+        if (i + ncon) % ctx.nshards != ctx.shard: continue
+        src = ctx.write('cb.txt', text); mp = ctx.write('cb.map', cmap)
+        c = ctx.cli({'tool': tool, 'cmd': 'compile', 'game': game, 'in': src, 'out': os.path.join(ctx.dir, 'in.bin'), 'maps': [mp]})
+        if not c.get('ok'): raise core.HarnessError('constructed binary %s does not compile: %s' % (name, c.get('diag')))
+        maps = []
+        if dmap: ctx.write('user.map', dmap); maps = ['user.map']
+        job = {'tool': tool, 'cmd': 'decompile', 'game': game, 'in': 'in.bin', 'maps': maps, 'width': 100}
+        argv = core.job_argv(job)
+        obs, first = run_n(ctx, lambda: argv, n, [])
+        judge(ctx, name, argv, obs, first, {'text': text, 'compile_mapfile': cmap, 'decompile_mapfile': dmap, 'job': job}, constructed=True)
     total = NINPUTS[ctx.tier] // ctx.nshards + 1
     corp = [e for i, e in enumerate(corpus.bundled()) if i % ctx.nshards == ctx.shard]
     done = 0
